@@ -91,9 +91,11 @@ def cases(run: Run):
         out.append(c)
     # "within the sensor's stated noise", for a sensor whose stated noise is correlated: the noisy measurements of one geometry, whitened with the
     # stated covariance, have the identity as their sample covariance
-    for _ in range(run.n(3, 12)):
+    for k in range(run.n(3, 12)):
         out.append({"op": "noise", "labels": rng.choice([["azimuth_rad", "elevation_rad"], ["azimuth_rad", "elevation_rad", "range_km", "range_rate_km_p_sec"]]),
                     "rho": rng.choice([0.9, -0.9, 0.6, -0.5, 0.0]), "n": 1500, "seed": rng.randint(1, 10**6)})
+        if k < 2:
+            out[-1]["rho"] = [0.9, -0.9][k]  # a strongly correlated and a strongly anti-correlated stated noise are always there
     # the same constraints through a whole scenario (engine, worker jobs, the sensor state reported back to the main process): a slow mount and
     # geostationary targets further apart than one step's slew budget - what the sensor reports over many steps must be reachable
     for _ in range(run.n(1, 5)):
@@ -443,7 +445,7 @@ def noise_oracle(c, impl):
     W = np.array(impl[1]["whitened_cov"])
     dev = float(np.max(np.abs(W - np.eye(len(W)))))
     # entries of the sample covariance of n whitened draws scatter by about sqrt(2/n) (diagonal) about the identity: 0.25 is more than six of those for n = 1500
-    if dev > 0.25:
+    if not dev <= 0.25:  # written so that a NaN (noise that is not a number) fails as well
         return [("noise:covariance", f"{c['n']} noisy measurements ({c['labels']}, correlation {c['rho']}) whitened with the stated covariance have sample covariance "
                                      f"{np.round(W, 2).tolist()} - {dev:.2f} from the identity")]
     return []
